@@ -50,6 +50,9 @@ func (c *Module) Connect(conn *sqlite.Conn, args []string,
 
 	err = declare(table.SchemaString)
 	if err != nil {
+		// s3db.New has registered the table already; without this the
+		// name stays taken ("table already exists") for the process
+		table.Disconnect()
 		return nil, fmt.Errorf("declare: %w", err)
 	}
 
